@@ -4,61 +4,11 @@
 From Coq Require Import ZArith Lia Bool List ZifyBool.
 From Flocq Require Import Core.Zaux Core.Digits.
 From DV Require Import Base Bid OpsArith OpsCmp OpsMisc.
-From DVI Require Import ImplLib ImplGen.
+From DVI Require Import ImplLib ImplGen ImplMul0.
 Import ListNotations.
 Open Scope Z_scope.
 
-(* ---------- multi-word helpers of bid_internal.rs (generated code): they compute exact products ---------- *)
 Ltac Zify.zify_post_hook ::= Z.div_mod_to_equations.
-Lemma mul_bound a b A B : 0 <= a <= A -> 0 <= b <= B -> 0 <= a * b <= A * B.
-Proof. intros. split; [apply Z.mul_nonneg_nonneg; lia|apply Z.mul_le_mono_nonneg; lia]. Qed.
-
-Lemma S_mul_64x64_to_128 CX CY : in_u64 CX -> in_u64 CY ->
-  let '(lo, hi) := i___mul_64x64_to_128 CX CY in
-  in_u64 lo /\ in_u64 hi /\ hi * 18446744073709551616 + lo = CX * CY.
-Proof.
-  unfold in_u64. intros HX HY. unfold i___mul_64x64_to_128, i_d128_new. cbv beta iota zeta.
-  rewrite !(shiftr_lit _ 32 4294967296) by (try reflexivity; lia).
-  rewrite !(shiftl_lit _ 32 4294967296) by (try reflexivity; lia).
-  unfold wrap_u32, wrap_u64.
-  set (xh := CX / 4294967296). set (xl := CX mod 4294967296). set (yh := CY / 4294967296). set (yl := CY mod 4294967296).
-  assert (Hxh : 0 <= xh <= 4294967295) by (unfold xh; lia). assert (Hxl : 0 <= xl <= 4294967295) by (unfold xl; lia).
-  assert (Hyh : 0 <= yh <= 4294967295) by (unfold yh; lia). assert (Hyl : 0 <= yl <= 4294967295) by (unfold yl; lia).
-  assert (EX : CX = xh * 4294967296 + xl) by (unfold xh, xl; lia).
-  assert (EY : CY = yh * 4294967296 + yl) by (unfold yh, yl; lia).
-  assert (EP : CX * CY = (xh * yh) * 18446744073709551616 + (xh * yl + xl * yh) * 4294967296 + xl * yl) by (rewrite EX, EY; ring).
-  rewrite EP. clear EP EX EY.
-  pose proof (mul_bound xh yl _ _ Hxh Hyl) as B1. pose proof (mul_bound xh yh _ _ Hxh Hyh) as B2.
-  pose proof (mul_bound xl yl _ _ Hxl Hyl) as B3. pose proof (mul_bound xl yh _ _ Hxl Hyh) as B4.
-  set (a := xh * yl) in *. set (b := xh * yh) in *. set (c := xl * yl) in *. set (d := xl * yh) in *.
-  clearbody a b c d xh xl yh yl. cbn in B1, B2, B3, B4.
-  lia.
-Qed.
-
-Lemma S_add_128_64 a0 a1 b : in_u64 a0 -> in_u64 a1 -> in_u64 b ->
-  a1 * 18446744073709551616 + a0 + b < 340282366920938463463374607431768211456 ->
-  let '(lo, hi) := i___add_128_64 a0 a1 b in
-  in_u64 lo /\ in_u64 hi /\ hi * 18446744073709551616 + lo = a1 * 18446744073709551616 + a0 + b.
-Proof.
-  unfold in_u64. intros H0 H1 Hb Hs. unfold i___add_128_64, i_d128_Default_default, i_d128_new. cbv beta iota zeta.
-  unfold wrap_u64.
-  destruct (Z.ltb_spec ((b + a0) mod 18446744073709551616) b); lia.
-Qed.
-
-Lemma S_mul_64x128_full A B0 B1 : in_u64 A -> in_u64 B0 -> in_u64 B1 ->
-  let '(ph, q0, q1) := i___mul_64x128_full A B0 B1 in
-  in_u64 ph /\ in_u64 q0 /\ in_u64 q1 /\
-  ph * 340282366920938463463374607431768211456 + q1 * 18446744073709551616 + q0 = A * (B1 * 18446744073709551616 + B0).
-Proof.
-  intros HA H0 H1. unfold i___mul_64x128_full, i_d128_Default_default, i_d128_new. cbv beta iota zeta.
-  pose proof (S_mul_64x64_to_128 A B1 HA H1) as S1. destruct (i___mul_64x64_to_128 A B1) as [h0 h1].
-  pose proof (S_mul_64x64_to_128 A B0 HA H0) as S0. destruct (i___mul_64x64_to_128 A B0) as [l0 l1].
-  destruct S1 as (R1 & R2 & E1). destruct S0 as (R3 & R4 & E0).
-  assert (Bd : A * B1 <= 18446744073709551615 * 18446744073709551615) by (unfold in_u64 in *; apply Z.mul_le_mono_nonneg; lia).
-  assert (Hs : h1 * 18446744073709551616 + h0 + l1 < 340282366920938463463374607431768211456) by (unfold in_u64 in *; lia).
-  pose proof (S_add_128_64 h0 h1 l1 R1 R2 R4 Hs) as S2. destruct (i___add_128_64 h0 h1 l1) as [m0 m1].
-  destruct S2 as (R5 & R6 & E2). unfold in_u64 in *. repeat split; lia.
-Qed.
 
 Lemma S_mul_64x128_to_192 A B0 B1 : in_u64 A -> in_u64 B0 -> in_u64 B1 ->
   let '(q0, q1, q2) := i___mul_64x128_to_192 A B0 B1 in
